@@ -153,6 +153,39 @@ theorem C16_reregistration_sync (l : Link) (ty : Nat)
       p.2.2 = (match p.2.1 with | .tl _ => true | .user => false) :=
   TraitsVerif.Model.LisL.reregistration_sync_table l ty hty remove
 
+/-! ### wildcard / metadata items -/
+
+/-- The `if last == "*":` branch of `ListenerItem.register` as translated: an anytrait item (`-` alone)
+puts its `active` entry first and goes to `_register_anytrait(new, "", False)` (`C16_anytrait_is_source`:
+one anytrait notifier); otherwise the item registers, in `trait_names` order, exactly the traits that
+are not events, whose metadata is set (`+m`) / not set (`-m`) when a metadata name is given, and whose
+name starts with the prefix when there is one — and hooks `_new_trait_added` on `trait_added`.
+Classification of those traits is `type_map`'s (`regKind_table`). -/
+theorem C16_wildcard_register_is_source (metaNamed metaDefined prefixNonEmpty : Bool)
+    (ts : List TraitsVerif.Model.LisL.TInfo) :
+    TraitsVerif.Generated.LegacyProg.wild.selected metaNamed metaDefined prefixNonEmpty ts =
+      ts.filter (fun t => !t.isEvent && (!metaNamed || (if metaDefined then t.metaSet else !t.metaSet)) &&
+        (!prefixNonEmpty || t.hasPrefix)) ∧
+    TraitsVerif.Generated.LegacyProg.wild.anytraitFirst = true ∧
+    TraitsVerif.Generated.LegacyProg.wild.hooksTraitAdded = true ∧
+    TraitsVerif.Model.LisL.regKind prog .list = .list ∧ TraitsVerif.Model.LisL.regKind prog .dict = .dict ∧
+    TraitsVerif.Model.LisL.regKind prog .set = .list ∧ TraitsVerif.Model.LisL.regKind prog .constant = .simple :=
+  ⟨TraitsVerif.Model.LisL.wild_selected_is_source metaNamed metaDefined prefixNonEmpty ts, rfl, rfl,
+   TraitsVerif.Model.LisL.regKind_table.2.1, TraitsVerif.Model.LisL.regKind_table.2.2.1,
+   TraitsVerif.Model.LisL.regKind_table.2.2.2, TraitsVerif.Model.LisL.regKind_table.1⟩
+
+/-- Traits added later: `_new_trait_added` handles a new trait with the `_register_<kind>` method
+`register` would have used (same `type_map` lookup on `handler.default_value_type`).  Failed before
+/repo a16357d (finding F107: `handler.default_value_`, every late trait registered as simple; repaired). -/
+theorem C16_new_trait_added_full (d : TraitsVerif.Model.LisL.DVT) :
+    TraitsVerif.Model.LisL.lateKind prog TraitsVerif.Generated.LegacyProg.wild d = TraitsVerif.Model.LisL.regKind prog d :=
+  TraitsVerif.Model.LisL.lateKind_table d
+
+-- regression: a List / Dict / Set trait added later is registered by _register_list / _register_dict / _register_list
+example : TraitsVerif.Model.LisL.lateKind prog TraitsVerif.Generated.LegacyProg.wild .list = .list := rfl
+example : TraitsVerif.Model.LisL.lateKind prog TraitsVerif.Generated.LegacyProg.wild .dict = .dict := rfl
+example : TraitsVerif.Model.LisL.lateKind prog TraitsVerif.Generated.LegacyProg.wild .set = .list := rfl
+
 /-! ### the parser: what '.' and ':' mean -/
 
 /-- `ListenerParser(name, deferred=d, handler_type=ty).listener`, interpreted from the translated
